@@ -201,7 +201,7 @@ def check_futures(ctx, rule, P, G):
                          'workers are still seeking and reading on the shared handle, and the caller\'s next read can get bytes '
                          'from the wrong offset' % (U(ex), U(ex).split('.')[-1]), line=c.lineno, key_extra='pool-scope')
                 continue
-            ok, why = future_consumed(f, c)
+            ok, why = future_consumed(f, c, G)
             if ok:
                 ctx.ok(rule, f, c, why)
             else:
@@ -223,7 +223,7 @@ def check_futures(ctx, rule, P, G):
     return n
 
 
-def future_consumed(f, sub):
+def future_consumed(f, sub, G=None):
     st = stmt_of(sub)
     par = parent(sub)
     holder = None      # name of a single future or of a collection of futures
@@ -277,7 +277,70 @@ def future_consumed(f, sub):
                     else:
                         break
                 return _before_use(f, top, st, 'result() called on every future of `%s`' % holder)
+    # the futures are handed to a helper that joins them: `_wait_for_all(futures)`
+    if G is not None:
+        for e in G.callees(f):
+            if e.target is None or e.kind not in ('direct',):
+                continue
+            for p_, a in e.binding.items():
+                if isinstance(a, ast.Name) and a.id == holder and joins_param(G, e.target, p_, single=not coll):
+                    return _before_use(f, stmt_of(e.call), st, 'result() called on every future of `%s` by %s' % (
+                        holder, e.target.qualname))
     return False, 'no .result() is ever called on `%s`' % holder
+
+
+def joins_param(G, g, pname, single=False, depth=0):
+    """does function g call .result() on (every element of) its parameter ``pname`` on every path that returns normally?
+    Only unconditional top-level statements of g count."""
+    if depth > 2 or pname not in g.params:
+        return False
+    if any(isinstance(n, (ast.Assign, ast.AugAssign)) and any(isinstance(x, ast.Name) and x.id == pname
+           for t in (n.targets if isinstance(n, ast.Assign) else [n.target]) for x in ast.walk(t)) for n in ast.walk(g.node)):
+        return False
+    for s in g.node.body:
+        if isinstance(s, ast.Return):
+            # a return before the join: stop (comprehension inside the return value still counts)
+            pass
+        if single:
+            for n in ast.walk(s) if isinstance(s, (ast.Expr, ast.Assign, ast.Return)) else []:
+                if isinstance(n, ast.Call) and isinstance(n.func, ast.Attribute) and n.func.attr == 'result' and \
+                        isinstance(n.func.value, ast.Name) and n.func.value.id == pname:
+                    return True
+        else:
+            if isinstance(s, ast.For) and isinstance(s.target, ast.Name) and _iterates(s.iter, pname):
+                for b in s.body:
+                    if isinstance(b, (ast.Expr, ast.Assign)) and any(
+                            isinstance(n, ast.Call) and isinstance(n.func, ast.Attribute) and n.func.attr == 'result' and
+                            isinstance(n.func.value, ast.Name) and n.func.value.id == s.target.id for n in ast.walk(b)):
+                        return True
+                    if isinstance(b, (ast.If, ast.Try, ast.Break, ast.Continue, ast.Return)):
+                        break
+            if isinstance(s, (ast.Expr, ast.Assign, ast.Return)) and s.value is not None:
+                for n in ast.walk(s.value):
+                    if isinstance(n, (ast.ListComp, ast.SetComp)) and len(n.generators) == 1 and not n.generators[0].ifs \
+                            and isinstance(n.generators[0].target, ast.Name) and _iterates(n.generators[0].iter, pname):
+                        tv = n.generators[0].target.id
+                        if any(isinstance(x, ast.Call) and isinstance(x.func, ast.Attribute) and x.func.attr == 'result' and
+                               isinstance(x.func.value, ast.Name) and x.func.value.id == tv for x in ast.walk(n.elt)):
+                            return True
+        # delegation
+        if isinstance(s, ast.Expr) and isinstance(s.value, ast.Call):
+            for e in G.edges_at(g, s.value):
+                if e.target is not None and e.kind == 'direct':
+                    for p2, a in e.binding.items():
+                        if isinstance(a, ast.Name) and a.id == pname and joins_param(G, e.target, p2, single, depth + 1):
+                            return True
+        if isinstance(s, (ast.Return, ast.Raise)):
+            return False
+    return False
+
+
+def _iterates(it, name):
+    if isinstance(it, ast.Name):
+        return it.id == name
+    if isinstance(it, ast.Call) and U(it.func).split('.')[-1] == 'as_completed' and len(it.args) >= 1:
+        return _iterates(it.args[0], name)
+    return False
 
 
 def _before_use(f, consume_stmt, submit_stmt, why):
